@@ -271,3 +271,309 @@ Proof.
   - rewrite Hy at 2. field. split; lra.
   - field. split; lra.
 Qed.
+
+(* ---------------------------------------------------------------- soundness of the correspondence checks *)
+Definition tolR (r : R) : R := Q2R q_1em8 + Q2R q_ulps * r.
+
+Lemma arc_close_sound envI envR e d r : Forall2 containsR envI envR -> arc_close envI e d r = true ->
+  Rabs (eval_R (env_R envR) e - dyR d) * eval_R (env_R envR) r <= tolR (eval_R (env_R envR) r).
+Proof. intros HF H. unfold arc_close in H. apply (chk_le_sound P envI envR _ _ HF) in H. exact H. Qed.
+
+Lemma len_close_sound envI envR e d r : Forall2 containsR envI envR -> len_close envI e d r = true ->
+  Rabs (eval_R (env_R envR) e - dyR d) <= tolR (eval_R (env_R envR) r).
+Proof. intros HF H. unfold len_close in H. apply (chk_le_sound P envI envR _ _ HF) in H. exact H. Qed.
+
+Lemma arc_close_mod2pi_sound envI envR e d r : Forall2 containsR envI envR -> arc_close_mod2pi envI e d r = true ->
+  exists k : Z, (-1 <= k <= 1)%Z /\
+    Rabs (eval_R (env_R envR) e + IZR k * (2 * PI) - dyR d) * eval_R (env_R envR) r <= tolR (eval_R (env_R envR) r).
+Proof.
+  intros HF H. unfold arc_close_mod2pi in H.
+  apply orb_prop in H. destruct H as [H | H]; [apply orb_prop in H; destruct H as [H | H]|].
+  - exists 0%Z. split; [lia|]. apply (arc_close_sound _ _ _ _ _ HF) in H.
+    replace (eval_R (env_R envR) e + 0 * (2 * PI) - dyR d) with (eval_R (env_R envR) e - dyR d) by ring. exact H.
+  - exists 1%Z. split; [lia|]. apply (arc_close_sound _ _ _ _ _ HF) in H. simpl in H.
+    replace (eval_R (env_R envR) e + 1 * (2 * PI) - dyR d) with (eval_R (env_R envR) e + 2 * PI - dyR d) by ring. exact H.
+  - exists (-1)%Z. split; [lia|]. apply (arc_close_sound _ _ _ _ _ HF) in H. simpl in H.
+    replace (eval_R (env_R envR) e + -1 * (2 * PI) - dyR d) with (eval_R (env_R envR) e - 2 * PI - dyR d) by ring. exact H.
+Qed.
+
+Lemma pow2Q_pos e : (0 < pow2Q e)%Q.
+Proof.
+  unfold pow2Q. destruct (0 <=? e)%Z eqn:E.
+  - apply Z.leb_le in E. unfold Qlt; simpl. pose proof (Z.pow_pos_nonneg 2 e). lia.
+  - reflexivity.
+Qed.
+
+Lemma dyR_Dy m e : dyR (Dy m e) = IZR m * Q2R (pow2Q e).
+Proof. unfold dyR, dyQ. rewrite Q2R_mult. f_equal. unfold Q2R; simpl. field. Qed.
+
+Lemma dyR_DZero n : dyR (DZero n) = 0.
+Proof. unfold dyR, dyQ. apply RMicromega.Q2R_0. Qed.
+
+Lemma dy_sign_sound z s : dy_sign z = Some s ->
+  (s = 0 \/ s = 1 \/ s = -1)%Z /\ sign_R (dyR z) = IZR s.
+Proof.
+  destruct z as [m e|n|n|]; simpl; try discriminate.
+  - pose proof (pow2Q_pos e) as Hp. apply Qlt_Rlt in Hp. rewrite RMicromega.Q2R_0 in Hp.
+    rewrite dyR_Dy. set (q := Q2R (pow2Q e)) in *. unfold sign_R.
+    destruct (0 <? m)%Z eqn:E.
+    + intros H. injection H as H. subst s. apply Z.ltb_lt in E. apply IZR_lt in E. split; [lia|].
+      assert (0 < IZR m * q) by (apply Rmult_lt_0_compat; assumption).
+      destruct (Rlt_dec 0 (IZR m * q)); [reflexivity | contradiction].
+    + destruct (m <? 0)%Z eqn:E'; [|discriminate].
+      intros H. injection H as H. subst s. apply Z.ltb_lt in E'. apply IZR_lt in E'. split; [lia|].
+      assert (IZR m * q < 0) by nra.
+      destruct (Rlt_dec 0 (IZR m * q)); [lra|]. destruct (Rlt_dec (IZR m * q) 0); [reflexivity | contradiction].
+  - intros H. injection H as H. subst s. split; [lia|]. rewrite dyR_DZero. unfold sign_R.
+    destruct (Rlt_dec 0 0); [lra|]. destruct (Rlt_dec 0 0); [lra | reflexivity].
+Qed.
+
+Lemma signed_eval env s e : (s = 0 \/ s = 1 \/ s = -1)%Z -> eval_R env (signed_ s e) = eval_R env e * IZR s.
+Proof. intros [H | [H | H]]; subst s; simpl; ring. Qed.
+
+Lemma is_zero_dy_sound d : is_zero_dy d = true -> dyR d = 0.
+Proof. destruct d; try discriminate. intros _. apply dyR_DZero. Qed.
+
+Definition inputs_R (qs : list Q) (ds : list dy) : list R := (map Q2R qs ++ map dyR ds)%list.
+
+Lemma trs_env_contains a f x y z :
+  Forall2 containsR (trs_env a f x y z) (prog_R [Q2R a; Q2R f; dyR x; dyR y; dyR z] trs2llh_prog).
+Proof. apply prog_contains. exact (Forall2_inputs P [a; f] [x; y; z]). Qed.
+Lemma llh_env_contains a f lat lon h :
+  Forall2 containsR (llh_env a f lat lon h) (prog_R [Q2R a; Q2R f; dyR lat; dyR lon; dyR h] llh2trs_prog).
+Proof. apply prog_contains. exact (Forall2_inputs P [a; f] [lat; lon; h]). Qed.
+
+Lemma pole_branch_sound envI envR b : Forall2 containsR envI envR -> pole_branch envI = Some b ->
+  if b then env_R envR 10 <= env_R envR 30 else env_R envR 30 < env_R envR 10.
+Proof.
+  intros HF. unfold pole_branch.
+  destruct (chk_le P envI (v_ 10) (v_ 30)) eqn:E1.
+  - intros H. injection H as H. subst b. exact (chk_le_sound P envI envR _ _ HF E1).
+  - destruct (chk_lt P envI (v_ 30) (v_ 10)) eqn:E2; [|discriminate].
+    intros H. injection H as H. subst b. exact (chk_lt_sound P envI envR _ _ HF E2).
+Qed.
+
+Lemma model_core (envI : list I.type) (envR : list R) (x y z lat lon h : dy) :
+  Forall2 containsR envI envR ->
+  model_trs2llh_env envI x y z lat lon h = 0%Z ->
+  exists b : bool,
+  (if b then env_R envR 10 <= env_R envR 30 else env_R envR 30 < env_R envR 10)
+  /\ Rabs ((if b then PI / 2 else env_R envR 24) * sign_R (dyR z) - dyR lat) * env_R envR 29 <= tolR (env_R envR 29)
+  /\ ((dyR x = 0 /\ dyR y = 0) \/
+      exists k : Z, (-1 <= k <= 1)%Z /\
+        Rabs (env_R envR 27 + IZR k * (2 * PI) - dyR lon) * env_R envR 29 <= tolR (env_R envR 29))
+  /\ Rabs ((if b then env_R envR 28 else env_R envR 26) - dyR h) <= tolR (env_R envR 29).
+Proof.
+  intros HF H. unfold model_trs2llh_env in H.
+  destruct (pole_branch envI) as [b|] eqn:EP; [|discriminate].
+  destruct (dy_sign z) as [s|] eqn:ES; [|discriminate].
+  destruct (arc_close envI (signed_ s (if b then EDiv EPi (EZ 2) else v_ 24)) lat (v_ 29)) eqn:E1; [|discriminate].
+  destruct (is_zero_dy x && is_zero_dy y || arc_close_mod2pi envI (v_ 27) lon (v_ 29)) eqn:E2; [|discriminate].
+  destruct (len_close envI (if b then v_ 28 else v_ 26) h (v_ 29)) eqn:E3; [|discriminate].
+  clear H. exists b.
+  destruct (dy_sign_sound z s ES) as [Hs Hsign].
+  split; [exact (pole_branch_sound envI envR b HF EP)|].
+  apply (arc_close_sound envI envR _ _ _ HF) in E1.
+  apply (len_close_sound envI envR _ _ _ HF) in E3.
+  rewrite (signed_eval _ _ _ Hs) in E1. rewrite Hsign.
+  split; [|split].
+  - destruct b; exact E1.
+  - apply orb_prop in E2. destruct E2 as [E2 | E2].
+    + left. apply andb_prop in E2. destruct E2. split; apply is_zero_dy_sound; assumption.
+    + right. exact (arc_close_mod2pi_sound envI envR _ _ _ HF E2).
+  - destruct b; exact E3.
+Qed.
+
+Lemma trs_envR_fold a f x y z n : env_R (prog_R [a; f; x; y; z] trs2llh_prog) n = trs_envR a f x y z n.
+Proof. unfold trs_envR. reflexivity. Qed.
+Lemma llh_envR_fold a f x y z n : env_R (prog_R [a; f; x; y; z] llh2trs_prog) n = llh_envR a f x y z n.
+Proof. unfold llh_envR. reflexivity. Qed.
+
+Lemma trs_env_r a f x y z : trs_envR a f x y z 29 = sqrt (x² + y² + z²).
+Proof. reflexivity. Qed.
+
+Lemma model_final (E : nat -> R) (sz r dlat dlon dh X Y : R) (b : bool) :
+  (if b then E 10%nat <= E 30%nat else E 30%nat < E 10%nat)
+  /\ Rabs ((if b then PI / 2 else E 24%nat) * sz - dlat) * r <= tolR r
+  /\ ((X = 0 /\ Y = 0) \/
+      exists k : Z, (-1 <= k <= 1)%Z /\ Rabs (E 27%nat + IZR k * (2 * PI) - dlon) * r <= tolR r)
+  /\ Rabs ((if b then E 28%nat else E 26%nat) - dh) <= tolR r ->
+  let t := if Rle_dec (E 10%nat) (E 30%nat) then (PI / 2 * sz, E 27%nat, E 28%nat)
+           else (E 24%nat * sz, E 27%nat, E 26%nat) in
+  Rabs (lat_of t - dlat) * r <= tolR r
+  /\ ((X = 0 /\ Y = 0) \/
+      exists k : Z, (-1 <= k <= 1)%Z /\ Rabs (lon_of t + IZR k * (2 * PI) - dlon) * r <= tolR r)
+  /\ Rabs (h_of t - dh) <= tolR r.
+Proof.
+  intros [HB [G1 [G2 G3]]] t. unfold t.
+  destruct b.
+  - destruct (Rle_dec (E 10%nat) (E 30%nat)) as [_|N]; [|contradiction].
+    unfold lat_of, lon_of, h_of; simpl fst; simpl snd. split; [exact G1|]. split; [exact G2 | exact G3].
+  - destruct (Rle_dec (E 10%nat) (E 30%nat)) as [C|_]; [lra|].
+    unfold lat_of, lon_of, h_of; simpl fst; simpl snd. split; [exact G1|]. split; [exact G2 | exact G3].
+Qed.
+
+Lemma model_trs2llh_unfold a f x y z lat lon h :
+  model_trs2llh a f x y z lat lon h = model_trs2llh_env (trs_env a f x y z) x y z lat lon h.
+Proof. reflexivity. Qed.
+
+(* (i): verdict 0 of model_trs2llh bounds the distance of the implementation's doubles from trs2llh_R of the exact inputs *)
+Theorem model_trs2llh_sound a f x y z lat lon h :
+  model_trs2llh a f x y z lat lon h = 0%Z ->
+  let t := trs2llh_R (Q2R a) (Q2R f) (dyR x) (dyR y) (dyR z) in
+  let r := sqrt ((dyR x)² + (dyR y)² + (dyR z)²) in
+  Rabs (lat_of t - dyR lat) * r <= tolR r
+  /\ ((dyR x = 0 /\ dyR y = 0) \/
+      exists k : Z, (-1 <= k <= 1)%Z /\ Rabs (lon_of t + IZR k * (2 * PI) - dyR lon) * r <= tolR r)
+  /\ Rabs (h_of t - dyR h) <= tolR r.
+Proof.
+  intros H. rewrite model_trs2llh_unfold in H.
+  destruct (model_core _ _ x y z lat lon h (trs_env_contains a f x y z) H) as [b G].
+  rewrite (trs_envR_fold _ _ _ _ _ 10), (trs_envR_fold _ _ _ _ _ 30), (trs_envR_fold _ _ _ _ _ 24), (trs_envR_fold _ _ _ _ _ 27),
+    (trs_envR_fold _ _ _ _ _ 28), (trs_envR_fold _ _ _ _ _ 26), (trs_envR_fold _ _ _ _ _ 29) in G.
+  rewrite trs_env_r in G.
+  rewrite trs2llh_prog_ok.
+  exact (model_final _ _ _ _ _ _ _ _ b G).
+Qed.
+
+(* llh -> trs: every coordinate of the implementation against llh2trs_R of the exact inputs *)
+Lemma model_llh2trs_core (envI : list I.type) (envR : list R) (x y z : dy) :
+  Forall2 containsR envI envR -> model_llh2trs_env envI x y z = true ->
+  let r := env_R envR 10 + Rabs (env_R envR 4) in
+  Rabs (env_R envR 12 - dyR x) <= tolR r /\ Rabs (env_R envR 13 - dyR y) <= tolR r /\ Rabs (env_R envR 14 - dyR z) <= tolR r.
+Proof.
+  intros HF H. unfold model_llh2trs_env in H.
+  apply andb_prop in H. destruct H as [H H3]. apply andb_prop in H. destruct H as [H1 H2].
+  apply (len_close_sound envI envR _ _ _ HF) in H1.
+  apply (len_close_sound envI envR _ _ _ HF) in H2.
+  apply (len_close_sound envI envR _ _ _ HF) in H3.
+  intros r. split; [exact H1 | split; [exact H2 | exact H3]].
+Qed.
+
+Lemma llh_env_ac a f lat lon h :
+  llh_envR a f lat lon h 10 = a / sqrt ((cos lat)² + (1 - f)² * (sin lat)²) /\ llh_envR a f lat lon h 4 = h.
+Proof. split; reflexivity. Qed.
+
+Theorem model_llh2trs_sound a f lat lon h x y z :
+  model_llh2trs_env (llh_env a f lat lon h) x y z = true ->
+  let '(X, Y, Z) := llh2trs_R (Q2R a) (Q2R f) (dyR lat) (dyR lon) (dyR h) in
+  let r := Q2R a / sqrt ((cos (dyR lat))² + (1 - Q2R f)² * (sin (dyR lat))²) + Rabs (dyR h) in
+  Rabs (X - dyR x) <= tolR r /\ Rabs (Y - dyR y) <= tolR r /\ Rabs (Z - dyR z) <= tolR r.
+Proof.
+  intros H.
+  pose proof (model_llh2trs_core _ _ x y z (llh_env_contains a f lat lon h) H) as G. cbv zeta in G.
+  rewrite (llh_envR_fold _ _ _ _ _ 10), (llh_envR_fold _ _ _ _ _ 4), (llh_envR_fold _ _ _ _ _ 12),
+    (llh_envR_fold _ _ _ _ _ 13), (llh_envR_fold _ _ _ _ _ 14) in G.
+  destruct (llh_env_ac (Q2R a) (Q2R f) (dyR lat) (dyR lon) (dyR h)) as [E10 E4]. rewrite E10, E4 in G.
+  rewrite llh2trs_prog_ok. exact G.
+Qed.
+
+(* (ii): the geometric certificate *)
+Lemma geo_cert_core (envI : list I.type) (envR : list R) (x y z h : dy) :
+  Forall2 containsR envI envR -> geo_cert_env envI x y z h = true ->
+  exists tol, tol_geo h = Some tol /\
+    sqrt ((env_R envR 12 - dyR x)² + (env_R envR 13 - dyR y)² + (env_R envR 14 - dyR z)²) <= Q2R tol.
+Proof.
+  intros HF H. unfold geo_cert_env in H. destruct (tol_geo h) as [tol|]; [|discriminate].
+  exists tol. split; [reflexivity|]. exact (chk_le_sound P envI envR _ _ HF H).
+Qed.
+
+Lemma geo_cert_unfold a f x y z lat lon h :
+  geo_cert a f x y z lat lon h = geo_cert_env (llh_env a f lat lon h) x y z h.
+Proof. reflexivity. Qed.
+
+Theorem geo_cert_sound_l a f x y z lat lon h :
+  geo_cert a f x y z lat lon h = true ->
+  let '(X, Y, Z) := llh2trs_R (Q2R a) (Q2R f) (dyR lat) (dyR lon) (dyR h) in
+  exists tol, tol_geo h = Some tol /\
+    sqrt ((X - dyR x)² + (Y - dyR y)² + (Z - dyR z)²) <= Q2R tol.
+Proof.
+  intros H. rewrite geo_cert_unfold in H.
+  pose proof (geo_cert_core _ _ x y z h (llh_env_contains a f lat lon h) H) as G.
+  rewrite (llh_envR_fold _ _ _ _ _ 12), (llh_envR_fold _ _ _ _ _ 13), (llh_envR_fold _ _ _ _ _ 14) in G.
+  rewrite llh2trs_prog_ok. exact G.
+Qed.
+
+(* the tolerance of the certificate is the one of the property text *)
+Lemma tol_geo_values h tol : tol_geo h = Some tol ->
+  exists q, dy_toQ h = Some q /\ ((Qle q q_100km /\ tol = q_1em6) \/ (~ Qle q q_100km /\ tol = q_2mm)).
+Proof.
+  unfold tol_geo. destruct (dy_toQ h) as [q|]; [|discriminate]. intros H. injection H as H. exists q. split; [reflexivity|].
+  destruct (Qle_bool q q_100km) eqn:E.
+  - left. split; [apply Qle_bool_iff; exact E | symmetry; exact H].
+  - right. split; [|symmetry; exact H]. intros C. apply Qle_bool_iff in C. congruence.
+Qed.
+
+(* ---------------------------------------------------------------- the verdicts of check_trs2llh / check_llh2trs *)
+Definition close_to_model (a f : Q) (x y z lat lon h : dy) : Prop :=
+  let t := trs2llh_R (Q2R a) (Q2R f) (dyR x) (dyR y) (dyR z) in
+  let r := sqrt ((dyR x)² + (dyR y)² + (dyR z)²) in
+  Rabs (lat_of t - dyR lat) * r <= tolR r
+  /\ ((dyR x = 0 /\ dyR y = 0) \/
+      exists k : Z, (-1 <= k <= 1)%Z /\ Rabs (lon_of t + IZR k * (2 * PI) - dyR lon) * r <= tolR r)
+  /\ Rabs (h_of t - dyR h) <= tolR r.
+
+Definition on_normal (a f : Q) (x y z lat lon h : dy) : Prop :=
+  let '(X, Y, Z) := llh2trs_R (Q2R a) (Q2R f) (dyR lat) (dyR lon) (dyR h) in
+  exists tol, tol_geo h = Some tol /\ sqrt ((X - dyR x)² + (Y - dyR y)² + (Z - dyR z)²) <= Q2R tol.
+
+Definition llh2trs_close (a f : Q) (lat lon h x y z : dy) : Prop :=
+  let '(X, Y, Z) := llh2trs_R (Q2R a) (Q2R f) (dyR lat) (dyR lon) (dyR h) in
+  let r := Q2R a / sqrt ((cos (dyR lat))² + (1 - Q2R f)² * (sin (dyR lat))²) + Rabs (dyR h) in
+  Rabs (X - dyR x) <= tolR r /\ Rabs (Y - dyR y) <= tolR r /\ Rabs (Z - dyR z) <= tolR r.
+
+Lemma check_trs2llh_sound_l i xyz llh : check_trs2llh (i, xyz, llh) = 0%Z ->
+  exists a f x y z lat lon h,
+    ell_params i = Some (a, f) /\ xyz = [x; y; z] /\ llh = [lat; lon; h]
+    /\ close_to_model a f x y z lat lon h /\ on_normal a f x y z lat lon h.
+Proof.
+  unfold check_trs2llh.
+  destruct (ell_params i) as [[a f]|]; [|discriminate].
+  destruct xyz as [|x [|y [|z [|? ?]]]]; try discriminate.
+  destruct llh as [|lat [|lon [|h [|? ?]]]]; try discriminate.
+  destruct (negb _); [discriminate|].
+  destruct (model_trs2llh a f x y z lat lon h) eqn:EM; [|discriminate|discriminate].
+  destruct (geo_cert a f x y z lat lon h) eqn:EG; [|discriminate].
+  intros _. exists a, f, x, y, z, lat, lon, h.
+  split; [reflexivity|]. split; [reflexivity|]. split; [reflexivity|]. split.
+  - exact (model_trs2llh_sound a f x y z lat lon h EM).
+  - exact (geo_cert_sound_l a f x y z lat lon h EG).
+Qed.
+
+Lemma check_llh2trs_sound_l i llh xyz : check_llh2trs (i, llh, xyz) = 0%Z ->
+  exists a f lat lon h x y z,
+    ell_params i = Some (a, f) /\ llh = [lat; lon; h] /\ xyz = [x; y; z] /\ llh2trs_close a f lat lon h x y z.
+Proof.
+  unfold check_llh2trs.
+  destruct (ell_params i) as [[a f]|]; [|discriminate].
+  destruct llh as [|lat [|lon [|h [|? ?]]]]; try discriminate.
+  destruct xyz as [|x [|y [|z [|? ?]]]]; try discriminate.
+  destruct (negb _); [discriminate|].
+  destruct (model_llh2trs_env (llh_env a f lat lon h) x y z) eqn:EM; [|discriminate].
+  intros _. exists a, f, lat, lon, h, x, y, z.
+  split; [reflexivity|]. split; [reflexivity|]. split; [reflexivity|].
+  exact (model_llh2trs_sound a f lat lon h x y z EM).
+Qed.
+
+(* ---------------------------------------------------------------- on the ellipsoid the start value of the code is the exact solution *)
+(* normalised coordinates pn = p / a, s0 = |z| / a of a surface point: pn² + s0² / (1 - e2) = 1.  Then the start value
+   (s0, c0 = ec pn) of _trs2llh solves the latitude equation, so (fixed point) the step returns tan(reduced latitude) = s0 / c0,
+   i.e. the exact geodetic latitude tan(lat) = |z| / ((1 - e2) p). *)
+Lemma halley_exact_on_surface_l e2 pn s0 :
+  0 < 1 - e2 -> 0 < pn -> 0 <= s0 -> pn² + s0² / (1 - e2) = 1 ->
+  let ec := sqrt (1 - e2) in
+  halley_S e2 ec pn (ec * s0) s0 (ec * pn) * (ec * pn) = halley_C e2 ec pn (ec * s0) s0 (ec * pn) * s0.
+Proof.
+  intros Hec2 Hpn Hs0 Hsurf ec.
+  assert (Hec : 0 < ec) by (apply sqrt_lt_R0; exact Hec2).
+  assert (Hecc : ec * ec = 1 - e2) by (apply sqrt_sqrt; lra).
+  assert (HA : sqrt ((ec * pn)² + s0²) = ec).
+  { apply sqrt_lem_1; [unfold Rsqr; nra | lra |].
+    rewrite Hecc. unfold Rsqr in *. replace (ec * pn * (ec * pn)) with ((ec * ec) * (pn * pn)) by ring. rewrite Hecc.
+    assert (G : s0 * s0 = (1 - e2) * (1 - pn * pn)).
+    { replace (1 - pn * pn) with (s0 * s0 / (1 - e2)) by lra. field. lra. }
+    rewrite G. ring. }
+  apply halley_fixed_point_l; rewrite HA.
+  - exact Hec.
+  - replace (ec * s0 * (ec * pn)) with ((ec * ec) * s0 * pn) by ring. rewrite Hecc. field. lra.
+Qed.
